@@ -95,6 +95,16 @@ def trace_level():
     tgt["target"] = True
     r = rejected(ctx, "Trace_LintFileArgs", "Trace_LintFileArgs.cfg", bad)
     expect("LintFileArgs: a reported link target is rejected", any(x["clause"].startswith("C13.") for x in r))
+    import converttable
+    before = len(ctx.rejects)
+    cv = converttable.stage(ctx, ("C15.", "C16.", "C17.", "crash"), tid0=1)
+    expect("ConvertTable: the 42 cells are accepted", len(ctx.rejects) == before, f"{len(cv['events'])} cells")
+    del ctx.rejects[before:]
+    bad = copy.deepcopy(cv["events"])
+    tgt = next(e for e in bad if e["exit"] == 2)
+    tgt["rootChanged"] = True
+    r = rejected(ctx, "Trace_ConvertTable", "Trace_ConvertTable.cfg", bad)
+    expect("ConvertTable: a refusal that changed the project is rejected", any(x["clause"].startswith("C17.") for x in r))
     # --- repository-test traces (C15 footprint, C16 exit discipline, C05 matches)
     sev = suitetrace.collect(ctx)
     c15 = suitetrace.for_c15(sev, 1)
